@@ -27,6 +27,11 @@ _RELAY_TB = [
 ]
 for _p in ("C01", "C02", "C03", "C04", "C05", "C06", "C07", "C08", "C15", "C19"):
     PROPS[_p] = {"pkgs": [(".", "TestVerif_" + _p)], "trusted_base": _RELAY_TB, "assumptions": []}
+# C04 also covers the RFC 6062 part: the multi-allocation TCP-relay histories judged by the isolation predicate
+PROPS["C04"]["pkgs"] = [(".", "TestVerif_C04"), (".", "TestVerif_C04TCP")]
+PROPS["C04"]["trusted_base"] = _RELAY_TB + [
+    "TCP relay part: peer and data connections are in-memory streams; dial outcomes and the server's random connection ids are "
+    "inputs of Model/TcpRelay.v (as for C16)"]
 
 PROPS["C20"] = {"pkgs": [(".", "TestVerif_C20")],
                 "trusted_base": ["the socket layer (transport.Net) and the random source are scripted by the harness; the model takes "
